@@ -1,6 +1,7 @@
 package textwire
 
 import (
+	"path/filepath"
 	"strings"
 
 	"github.com/textwire/textwire/v2/config"
@@ -133,7 +134,10 @@ func Configure(opt *config.Config) {
 	}
 
 	if opt.TemplateDir != "" {
-		userConfig.TemplateDir = strings.Trim(opt.TemplateDir, "/")
+		// the shortest spelling of the directory ("./tpl", "tpl/../tpl" and "tpl//" are
+		// all "tpl"): the paths found by walking it begin with exactly this prefix
+		dir := filepath.ToSlash(filepath.Clean(opt.TemplateDir))
+		userConfig.TemplateDir = strings.Trim(dir, "/")
 	}
 
 	if opt.TemplateExt != "" {
